@@ -334,10 +334,11 @@ Qed.
 
 Lemma div_ceil_pos size mx : 0 < size -> 0 < mx -> 1 <= div_ceil size mx.
 Proof.
-  intros Hs Hm. unfold div_ceil. destruct (size mod mx =? 0) eqn:E; [|lia].
-  assert (size mod mx = 0) by lia.
-  destruct (N.eq_dec (size / mx) 0) as [Hz|Hz]; [|lia].
-  apply N.div_small_iff in Hz; [|lia]. rewrite N.mod_small in H by exact Hz. lia.
+  intros Hs Hm. unfold div_ceil.
+  destruct (N.eq_dec (size / mx) 0) as [Hz|Hz].
+  - rewrite Hz. apply N.div_small_iff in Hz; [|lia]. rewrite (N.mod_small _ _ Hz).
+    destruct (size =? 0) eqn:E; lia.
+  - generalize dependent (size / mx). intros q Hq. destruct (size mod mx =? 0); lia.
 Qed.
 
 Lemma split_one_spec mx m ps : 0 < mx -> split_one mx m = Ok ps ->
